@@ -530,16 +530,32 @@ def r3_compositions(repo: Repo, rep):
         raise AnalysisError("Sequential.forward vanished")
     rep.saw(fi)
     pname = fi.params[1]
-    for p in paths(fi.node):
-        if p.ret is RAISE:
-            continue
-        ret = p.ret
-        good = False
-        if isinstance(ret, ast.Call) and isinstance(ret.func, ast.Name) and ret.func.id in p.loopvars and len(ret.args) == 1:
-            it = dump(p.loopvars[ret.func.id])
-            inner = dump(ret.args[0])
-            good = it == "self.models" and inner in (f"self._fix_points_order({pname})", pname)
-        rep.check(R, good, fi.site(p.ret_node), fi.fq, "fold: points = model(points) for model in self.models (in order)", dump(ret), dump(ret))
+    # partial evaluation on three recording sub-models: the result is m2(m1(m0(<sanitised input>)))
+    from ..absdom.listeval import Evaluator, NotEval, Obj, Opaque, UNKNOWN
+
+    def on_call(e, name, args, kws, ev, f):
+        tgt = None
+        if isinstance(e.func, ast.Name) and isinstance(f.env.get(e.func.id), Obj):
+            tgt = f.env[e.func.id]
+        elif not isinstance(e.func, ast.Name):
+            try:
+                v = ev.ev(e.func, f)
+            except NotEval:
+                v = None
+            if isinstance(v, Obj):
+                tgt = v
+        if tgt is not None and args is not None and len(args) == 1 and not kws:
+            return (tgt.tag, args[0])
+        if name == "self._fix_points_order" and args is not None and len(args) == 1:
+            return ("fix", args[0])
+        return None
+    models = [Obj(f"m{i}") for i in range(3)]
+    fr = Evaluator(None, on_call).run(fi.node.body, {"self": Opaque("self"), pname: "P"}, attrs={"self.models": list(models)})
+    want_a, want_b = ("m2", ("m1", ("m0", ("fix", "P")))), ("m2", ("m1", ("m0", "P")))
+    if fr.ret is UNKNOWN or not fr.returned:
+        rep.undecided(R, fi.site(), fi.fq, "Sequential.forward evaluable on three recording sub-models", repr(fr.ret)[:80])
+    else:
+        rep.check(R, fr.ret in (want_a, want_b), fi.site(), fi.fq, "fold: points = model(points) for model in self.models (in order)", repr(fr.ret)[:120], repr(fr.ret)[:120])
     init = seq.methods.get("__init__")
     if init is not None:
         rep.saw(init)
